@@ -72,6 +72,7 @@ type batchSpanProcessor struct {
 	stopWait   sync.WaitGroup
 	stopOnce   sync.Once
 	stopCh     chan struct{}
+	stopDone   chan struct{} // closed once the shutdown started by the first Shutdown call has completed
 	stopped    atomic.Bool
 }
 
@@ -117,6 +118,8 @@ func NewBatchSpanProcessor(exporter SpanExporter, options ...BatchSpanProcessorO
 		timer:  time.NewTimer(o.BatchTimeout),
 		queue:  make(chan ReadOnlySpan, o.MaxQueueSize),
 		stopCh: make(chan struct{}),
+
+		stopDone: make(chan struct{}),
 	}
 
 	bsp.stopWait.Add(1)
@@ -147,12 +150,13 @@ func (bsp *batchSpanProcessor) OnEnd(s ReadOnlySpan) {
 }
 
 // Shutdown flushes the queue and waits until all spans are processed.
-// It only executes once. Subsequent call does nothing.
+// The shutdown itself is only executed once. A subsequent call starts nothing
+// new: it waits (as long as its context allows) for the shutdown that is
+// already under way, so that a nil return always means that the queue has
+// been drained and the exporter has been shut down.
 func (bsp *batchSpanProcessor) Shutdown(ctx context.Context) error {
-	var err error
 	bsp.stopOnce.Do(func() {
 		bsp.stopped.Store(true)
-		wait := make(chan struct{})
 		go func() {
 			close(bsp.stopCh)
 			bsp.stopWait.Wait()
@@ -161,16 +165,16 @@ func (bsp *batchSpanProcessor) Shutdown(ctx context.Context) error {
 					otel.Handle(err)
 				}
 			}
-			close(wait)
+			close(bsp.stopDone)
 		}()
-		// Wait until the wait group is done or the context is cancelled
-		select {
-		case <-wait:
-		case <-ctx.Done():
-			err = ctx.Err()
-		}
 	})
-	return err
+	// Wait until the shutdown is done or the context is cancelled
+	select {
+	case <-bsp.stopDone:
+		return nil
+	case <-ctx.Done():
+		return ctx.Err()
+	}
 }
 
 type forceFlushSpan struct {
